@@ -334,7 +334,7 @@ pub fn run(ctx: &Ctx) -> EvidenceMeta {
         }));
       }
     } else {
-      let n = (ctx.n(4000, 60_000) / s.proto.cost().min(20)).max(100);
+      let n = (ctx.n(10_000, 100_000) / s.proto.cost().min(20)).max(300);
       jobs.push(Box::new(move || ctx.prop(s, random_case(s.proto, 30), n)));
     }
   }
